@@ -47,6 +47,11 @@ type duplexHTTPCall struct {
 
 	errMu sync.Mutex
 	err   error
+
+	// requestBodyClosed is closed once either end of the request body pipe has
+	// been closed.
+	requestBodyClosed     chan struct{}
+	requestBodyClosedOnce sync.Once
 }
 
 func newDuplexHTTPCall(
@@ -72,6 +77,7 @@ func newDuplexHTTPCall(
 		requestBodyWriter: pipeWriter,
 		request:           request,
 		responseReady:     make(chan struct{}),
+		requestBodyClosed: make(chan struct{}),
 	}
 	if err != nil {
 		// We can't construct a request, so we definitely can't send it over the
@@ -126,7 +132,9 @@ func (d *duplexHTTPCall) CloseWrite() error {
 	// code for unary, client streaming, and server streaming RPCs must call
 	// CloseWrite automatically rather than requiring the user to do it.
 	verifYield("closewrite.pipe")
-	return d.requestBodyWriter.Close()
+	err := d.requestBodyWriter.Close()
+	d.markRequestBodyClosed()
+	return err
 }
 
 // Header returns the HTTP request headers.
@@ -232,6 +240,7 @@ func (d *duplexHTTPCall) SetError(err error) {
 	// CloseWithError, which is documented to always return nil.
 	verifYield("seterror.closepipe")
 	_ = d.requestBodyReader.Close()
+	d.markRequestBodyClosed()
 }
 
 // SetValidateResponse sets the response validation function. The function runs
@@ -247,7 +256,30 @@ func (d *duplexHTTPCall) BlockUntilResponseReady() {
 func (d *duplexHTTPCall) ensureRequestMade() {
 	d.sendRequestOnce.Do(func() {
 		go d.makeRequest()
+		if d.ctx.Done() != nil {
+			go d.watchContext()
+		}
 	})
+}
+
+// watchContext ends the call when the context ends while the request body is
+// still open. net/http's HTTP/2 transport doesn't watch the context while it's
+// blocked reading the request body from our pipe: without this, a cancelled
+// call whose request side is open stays blocked in Read, and the server never
+// learns about the cancellation. Closing the pipe (via SetError) unblocks the
+// transport, which then resets the stream.
+func (d *duplexHTTPCall) watchContext() {
+	select {
+	case <-d.ctx.Done():
+		d.SetError(d.ctx.Err())
+	case <-d.requestBodyClosed:
+		// The transport has seen (or is about to see) the end of the request
+		// body and watches the context itself from here on.
+	}
+}
+
+func (d *duplexHTTPCall) markRequestBodyClosed() {
+	d.requestBodyClosedOnce.Do(func() { close(d.requestBodyClosed) })
 }
 
 func (d *duplexHTTPCall) makeRequest() {
